@@ -198,7 +198,7 @@ impl Scenario for Lru {
         "exploration"
     }
     fn rule(&self) -> &'static str {
-        "Enumerated arm first: run indices 0..N of every batch are, in order and independent of the seed, ALL histories of length 1..L (quick L=3: 15,657 cases; thorough L=5: 4,525,791 cases) over a 17-symbol alphabet {touch k0-k3, remove k0-k3, evict_tail, evict_to_target(1 or 2 entries), bump_generation, checkpoint, load latest, run_cycle, restart, reset} for capacities 1, 2, 3 and 4 non-zero keys (counter enumerated_histories). Then seeded histories (1-30 ops, mostly 3-12) over touch/remove/evict_tail/evict_to_target/bump_generation/checkpoint_to_disk/load_from_disk/run_cycle/shutdown/reset/restart on the real LruManager with real checkpoint files in a per-run tmpfs sandbox; capacity 1-4 (a few up to 64), 4-6 keys, the all-zero key in ~30% of runs. After EVERY op len/contains/for_each_entry order are compared with a textbook LRU. A run is non-trivial if it executed >= 2 state-changing ops; distinct = distinct hash of (config, ops, observed results)."
+        "Enumerated arm first: run indices 0..N of every batch are, in order and independent of the seed, ALL histories of length 1..L (quick L=3: 15,657 cases; thorough L=5: 4,525,791 cases) over a 17-symbol alphabet {touch k0-k3, remove k0-k3, evict_tail, evict_to_target(1 or 2 entries), bump_generation, checkpoint, load latest, run_cycle, restart, reset} for capacities 1, 2, 3 and 4 non-zero keys (counter enumerated_histories). Then seeded histories (1-30 ops, mostly 3-12) over touch/remove/evict_tail/evict_to_target/bump_generation/checkpoint_to_disk/load_from_disk/run_cycle/shutdown/reset/restart on the real LruManager with real checkpoint files in a per-run tmpfs sandbox; capacity 1-4 (a few up to 64), 4-6 keys, the all-zero key in ~30% of runs; run_cycle limits from 0 / one entry / capacity-1 entries up to (one cycle in three) 2^32 average-sized entries and just above, powers of two up to 2^62, u64::MAX, average sizes up to 2^32. After EVERY op len/contains/for_each_entry order are compared with a textbook LRU. A run is non-trivial if it executed >= 2 state-changing ops; distinct = distinct hash of (config, ops, observed results)."
     }
     fn assumptions(&self) -> Vec<&'static str> {
         vec![
@@ -307,12 +307,27 @@ impl Scenario for Lru {
                     _ => LoadSel::Missing,
                 }),
                 7 | 10 => {
-                    let avg = *rng.pick(&avgs);
-                    let limit = match rng.below(4) {
-                        0 => 0,
-                        1 => avg,
-                        2 => avg * u64::from(capacity.max(1) - 1).max(1),
-                        _ => u64::MAX / 4,
+                    // one cycle in three takes its arguments from the wide end of the u64 range: limits at and
+                    // just above 2^32 average-sized entries, the full range, large average sizes (an entry count
+                    // derived from them does not fit 32 bits)
+                    let wide = rng.chance(1, 3);
+                    let avg = if wide { *rng.pick(&[1u64, 100, 1 << 16, 1 << 32]) } else { *rng.pick(&avgs) };
+                    let limit = if wide {
+                        match rng.below(6) {
+                            0 => (1u64 << 32).saturating_mul(avg),
+                            1 => ((1u64 << 32) + rng.below(u64::from(capacity) + 1)).saturating_mul(avg),
+                            2 => u64::MAX,
+                            3 => u64::MAX - rng.below(1 << 20),
+                            4 => (1u64 << rng.range(33, 63)).saturating_add(rng.below(4) * avg),
+                            _ => rng.next_u64() | (1 << 40),
+                        }
+                    } else {
+                        match rng.below(4) {
+                            0 => 0,
+                            1 => avg,
+                            2 => avg * u64::from(capacity.max(1) - 1).max(1),
+                            _ => u64::MAX / 4,
+                        }
                     };
                     if rng.chance(1, 2) { Op::RunCycle { limit, avg } } else { Op::Restart { limit, avg } }
                 }
